@@ -76,9 +76,9 @@ def check(prop, tier):
     viols = [dict(v, sig=sig_of(v)) for v in res["violations"]]
     cov = {"evaluations": res["calls"], "distinct_nontrivial": res["distinct_configs"], "samples": res["samples"],
            "case_structures_from_tlc": res["cases"], "tlc_states": res["design"]["distinct"], "exhaustive": False,
-           "rule": "TLC enumerates every combination of character classes (13 classes + empty name) for the project name, ignore patterns, requirement names, 0..2 requirements and 7 path forms; the harness instantiates each class with seeded concrete strings (quotes, backslashes, control characters, newlines, non-BMP Unicode); distinct = distinct concrete configurations",
+           "rule": "TLC enumerates every combination of character classes (13 classes + the empty string) for the project name and the requirement names, ignore patterns, 0..2 requirements and 7 path forms; the harness instantiates each class with seeded concrete strings (quotes, backslashes, control characters, newlines, non-BMP Unicode); distinct = distinct concrete configurations",
            "family_wall_s": round(res["wall_s"], 1)}
-    assumptions = ["domain as the property states: canonical semver versions, clean paths, non-empty requirement names",
+    assumptions = ["domain as the property states: canonical semver versions, clean paths",
                    "the model is a register: TLC serves as case enumerator and trace evaluator here, not as a design checker"]
     return vlib.conclude(prop, tier, "exploration", cov, t0, viols, assumptions,
                          lambda v: {"family": "config", "property": prop, "violation": v})
